@@ -294,6 +294,8 @@ class Ctx:
                     inner[:] = val
                 elif isinstance(inner, Cell):
                     inner.v = val
+                elif isinstance(inner, BytesMutV) and isinstance(val, BytesMutV):
+                    inner.items = list(val.items); inner.lo = val.lo
                 else:
                     raise Unsupported(f'store through transparent reference to {type(inner).__name__}')
             return LRef(lambda: inner, setter)
@@ -1137,7 +1139,7 @@ def normalize_callee(c):
         ty = inner[:pos]; tr = inner[pos + 4:]
         trn = last_seg(strip_angle(tr).strip())
         return (trn + '::' + meth, ty, trn)
-    m = re.match(r'^(?:\w+::)*(slice|str|num|char|array|ptr|f64|f32)::<impl (.*?)>::(.*)$', c, re.S)
+    m = re.match(r'^(?:\w+::)*?(slice|str|num|char|array|ptr|f64|f32)(?:::\w+)?::<impl (.*?)>::(.*)$', c, re.S)
     if m:
         t = m.group(2).strip()
         if t.startswith('['): t = 'slice'
